@@ -152,6 +152,13 @@ func (e *Enc) call(site ssa.Instruction, cc *ssa.CallCommon, rt types.Type) Valu
 		argTypes = append(argTypes, a.Type())
 	}
 
+	if cc.StaticCallee() == nil && !cc.IsInvoke() {
+		if n, ok := cc.Value.Type().(*types.Named); ok {
+			key = "dyn:" + n.Obj().Name()
+		}
+	}
+	e.atCallAsserts(site, key, args, argTypes)
+
 	// special models
 	if v, ok := e.specialCall(site, key, cc, args, rt); ok {
 		return v
@@ -695,4 +702,49 @@ func (e *Enc) allofFams(ctx *SpecCtx, x *ECall) []string {
 	}
 	e.famSorts[fam] = arrSort(SInt, scalarSort(ft))
 	return []string{fam}
+}
+
+// atCallAsserts discharges the `at call` assertions attached to this call site.
+func (e *Enc) atCallAsserts(site ssa.Instruction, key string, args []Value, argTypes []types.Type) {
+	if e.fc == nil || len(e.fc.AtCalls) == 0 {
+		return
+	}
+	matched := false
+	for i := range e.fc.AtCalls {
+		if strings.HasSuffix(key, e.fc.AtCalls[i].Callee) {
+			matched = true
+		}
+	}
+	if !matched {
+		return
+	}
+	e.atOrd[key]++
+	for i := range e.fc.AtCalls {
+		ac := &e.fc.AtCalls[i]
+		if !strings.HasSuffix(key, ac.Callee) {
+			continue
+		}
+		// ordinal counts calls matching this clause's callee pattern
+		e.atOrdPat[ac.Callee+"@"+fmt.Sprint(i)]++
+		if e.atOrdPat[ac.Callee+"@"+fmt.Sprint(i)] != ac.Ord {
+			continue
+		}
+		ac.Used = true
+		ctx := e.baseCtx()
+		ctx.heap = e.cur
+		ctx.at = site.Block()
+		for k := range args {
+			ctx.vars[fmt.Sprintf("a%d", k)] = TV{args[k], argTypes[k]}
+		}
+		for idx, in := range site.Block().Instrs {
+			if in == site {
+				ctx.atIdx = idx
+			}
+		}
+		t, err := ctx.EvalBool(ac.C.E)
+		if err != nil {
+			e.fatal("at call %s#%d: %v", ac.Callee, ac.Ord, err)
+		}
+		e.assertOb(fmt.Sprintf("at@%s#%d.%d", shortName(ac.Callee), ac.Ord, i+1), t, "assertion before call to "+ac.Callee+": "+ac.C.Src, posOf(site))
+	}
 }
